@@ -228,6 +228,7 @@ impl Ctx {
                     codes.iter().map(|c| { let op = op_of_code(*c); res(guard(|| ss.test(&op, &tr))) }).collect(),
                 )
             }
+            4 | 5 | 6 => return self.exec_annotations(req),
             _ => {
                 let ss = mkset(store, &resitem, &am, sa);
                 let rs = mkset(store, &resitem, &bm, sb);
@@ -242,6 +243,93 @@ impl Ctx {
         let input = l(vec![a(kind.min(3)), ws, asx, bsx, req.nth(4).clone()]);
         (input, results, nontrivial)
     }
+}
+
+fn target<'a>(members: &[(usize, usize)], resid: impl Fn(usize) -> &'static str) -> SelectorBuilder<'a> {
+    let mut subs: Vec<SelectorBuilder> = members.iter().enumerate().map(|(i, (bb, ee))| SelectorBuilder::textselector(resid(i), Offset::simple(*bb, *ee))).collect();
+    if subs.len() == 1 {
+        subs.pop().unwrap()
+    } else {
+        match (members[0].0 + members.len()) % 3 {
+            0 => SelectorBuilder::MultiSelector(subs),
+            1 => SelectorBuilder::CompositeSelector(subs),
+            _ => SelectorBuilder::DirectionalSelector(subs),
+        }
+    }
+}
+
+impl Ctx {
+    /// kinds 4-6: the relation tests of ResultItem<Annotation> - test(other annotation),
+    /// test_textselection, test_textselectionset - on a fresh store with annotation A over the members
+    /// of the first operand and (kind 4) annotation B over those of the second.  With `two` (6th
+    /// element 1) there is a second resource with the same text: A's members alternate between the
+    /// two, the second operand lies in the second; only A's selections in that resource count.
+    /// The model gets the sets as the annotations report them (kind 2 / 3), or kind 9 (false for
+    /// every operator) when A has nothing in the resource of the second operand.
+    fn exec_annotations(&self, req: &Sx) -> (Sx, Vec<Sx>, bool) {
+        let kind = req.nth(0).int();
+        let ti = (req.nth(1).int() as usize).min(TEXTS.len() - 1);
+        let (_, am) = members(req.nth(2));
+        let (sb, bm) = members(req.nth(3));
+        let codes: Vec<i64> = req.nth(4).list().iter().map(|c| c.int()).collect();
+        let two = req.list().len() > 5 && req.nth(5).int() == 1;
+        let mut store = AnnotationStore::default()
+            .with_id("c13a")
+            .with_resource(TextResourceBuilder::new().with_id("r").with_text(TEXTS[ti]))
+            .unwrap()
+            .with_resource(TextResourceBuilder::new().with_id("r2").with_text(TEXTS[ti]))
+            .unwrap();
+        let bres: &'static str = if two { "r2" } else { "r" };
+        store
+            .annotate(AnnotationBuilder::new().with_id("A").with_target(target(&am, |i| if two && i % 2 == 1 { "r2" } else { "r" })).with_data("s", "k", "v"))
+            .unwrap();
+        if kind == 4 {
+            store.annotate(AnnotationBuilder::new().with_id("B").with_target(target(&bm, |_| bres)).with_data("s", "k", "v")).unwrap();
+        }
+        let store = store;
+        let ann_a = store.annotation("A").unwrap();
+        let rb = store.resource(bres).unwrap();
+        // A's selections in the resource of the second operand, in the order the annotation gives
+        // them (taken one by one, not through textselectionsets(), which is under test)
+        let aset: Vec<ResultTextSelection> = ann_a.textselections().filter(|t| t.resource().handle() == rb.handle()).collect();
+        let ws = wsflags(TEXTS[ti]);
+        let (bsx, mkind, results): (Sx, i64, Vec<Sx>) = match kind {
+            4 => {
+                let ann_b = store.annotation("B").unwrap();
+                let mut bv = vec![b(false)];
+                bv.extend(ann_b.textselections().map(|t| ts_sx(&t)));
+                (l(bv), 3, codes.iter().map(|c| { let op = op_of_code(*c); res(guard(|| ann_a.test(&op, &ann_b))) }).collect())
+            }
+            5 => {
+                let tr = rb.textselection(&Offset::simple(bm[0].0, bm[0].1)).unwrap();
+                (l(vec![b(false), ts_sx(&tr)]), 2, codes.iter().map(|c| { let op = op_of_code(*c); res(guard(|| ann_a.test_textselection(&op, &tr))) }).collect())
+            }
+            _ => {
+                let rs = mkset(&store, &rb, &bm, sb);
+                (set_sx(&rs, sb), 3, codes.iter().map(|c| { let op = op_of_code(*c); res(guard(|| ann_a.test_textselectionset(&op, &rs))) }).collect())
+            }
+        };
+        let (asx, mkind) = if aset.is_empty() {
+            (l(vec![b(false)]), 9)
+        } else {
+            let mut v = vec![b(false)];
+            v.extend(aset.iter().map(ts_sx));
+            (l(v), mkind)
+        };
+        let input = l(vec![a(mkind), ws, asx, bsx, req.nth(4).clone()]);
+        (input, results, true)
+    }
+}
+
+fn emit_ann(ctx: &Ctx, out: &mut Out, kind: i64, ti: usize, am: &[(usize, usize)], bm: &[(usize, usize)], sb: bool, two: bool, opsx: &Sx) {
+    let req = l(vec![a(kind), a(ti as i64), req_set(am, false), req_set(bm, sb), opsx.clone(), a(two as i64)]);
+    // a panic outside the tests themselves (while the sets are taken from the annotation) shows as
+    // a failing input: every operator answers "panic" where the model answers
+    let (input, results, nt) = guard(|| ctx.exec(&req)).unwrap_or_else(|| {
+        (l(vec![a(9), wsflags(TEXTS[ti.min(TEXTS.len() - 1)]), l(vec![b(false)]), l(vec![b(false)]), opsx.clone()]), opsx.list().iter().map(|_| a(2)).collect(), true)
+    });
+    out.case(&input, &results, nt, &req);
+    out.count(["kind4_annotation_annotation", "kind5_annotation_ts", "kind6_annotation_set"][(kind - 4) as usize]);
 }
 
 fn emit(ctx: &Ctx, out: &mut Out, kind: i64, ti: usize, am: &[(usize, usize)], sa: bool, bm: &[(usize, usize)], sb: bool, opsx: &Sx) {
@@ -289,6 +377,25 @@ pub fn generate(out: &mut Out, tier: &str, seed: u64) {
             }
         }
     }
+    // the relation tests of annotations: every set of <= 2 members over positions 0..3 as annotation A
+    // against an annotation, a selection and a set; with and without a second resource
+    for ti in 0..2 {
+        let rs = ranges(3);
+        let sets = sets_upto2(&rs);
+        for (i, asx) in sets.iter().enumerate() {
+            for (j, bs) in sets.iter().enumerate() {
+                if !thorough && (i + 2 * j + ti) % 3 != 0 {
+                    continue;
+                }
+                let two = (i + j) % 2 == 1;
+                emit_ann(&ctx, out, 4, ti, asx, bs, false, two, &opsx);
+                emit_ann(&ctx, out, 6, ti, asx, bs, (i + j) % 4 < 2, two, &opsx);
+                if bs.len() == 1 {
+                    emit_ann(&ctx, out, 5, ti, asx, bs, false, two, &opsx);
+                }
+            }
+        }
+    }
     // random larger sets on two longer texts (the second has a whitespace run longer than the limit)
     let n = TEXTS[3].chars().count();
     let rlimits: Vec<Option<usize>> = vec![None, Some(0), Some(3), Some(9)];
@@ -311,6 +418,15 @@ pub fn generate(out: &mut Out, tier: &str, seed: u64) {
         let sa = rng.chance(1, 2);
         let sb = rng.chance(1, 2);
         let ti = 2 + rng.below(2);
+        if rng.chance(1, 6) {
+            let two = rng.chance(1, 2);
+            match rng.below(3) {
+                0 => emit_ann(&ctx, out, 4, ti, &asx, &bs, false, two, &ropsx),
+                1 => emit_ann(&ctx, out, 5, ti, &asx, &bs[..1], false, two, &ropsx),
+                _ => emit_ann(&ctx, out, 6, ti, &asx, &bs, sb, two, &ropsx),
+            }
+            continue;
+        }
         match rng.below(4) {
             0 => emit(&ctx, out, 0, ti, &asx[..1], false, &bs[..1], false, &ropsx),
             1 => emit(&ctx, out, 1, ti, &asx[..1], false, &bs, sb, &ropsx),
@@ -320,6 +436,6 @@ pub fn generate(out: &mut Out, tier: &str, seed: u64) {
     }
 }
 
-pub const RULE: &str = "exhaustive: all pairs of well-formed ranges over positions 0..7 on two 7-codepoint texts (with / without whitespace, about half of the ranges bound to handles), all sets of size <=2 over positions 0..3 (quick) / 0..5 (thorough) sorted and unsorted, each against every operator x all x negate x limit in {None,0,1,2,5} x allow_whitespace; plus seeded random sets of size 1..4 on a 29-codepoint text. One evaluation = one (operands, operator) test through ResultTextSelection::test/test_set or ResultTextSelectionSet::test/test_set. A case line is non-trivial when an operand is non-empty (pairs) or a set has more than one member; distinct = distinct input lines.";
+pub const RULE: &str = "exhaustive: all pairs of well-formed ranges over positions 0..7 on two 7-codepoint texts (with / without whitespace, about half of the ranges bound to handles), all sets of size <=2 over positions 0..3 (quick) / 0..5 (thorough) sorted and unsorted, each against every operator x all x negate x limit in {None,0,1,2,5} x allow_whitespace; plus seeded random sets of size 1..4 on a 29-codepoint text. The relation tests of annotations (ResultItem<Annotation>::test / test_textselection / test_textselectionset): annotation A over every set of <=2 members over positions 0..3 (Multi/Composite/Directional or a plain text selector) against a second annotation, a selection and a set, half of them with a second resource of the same text (A's members alternating between the two, only those in the resource of the second operand count), plus a sixth of the random cases. One evaluation = one (operands, operator) test through ResultTextSelection::test/test_set, ResultTextSelectionSet::test/test_set or the annotation-level tests. A case line is non-trivial when an operand is non-empty (pairs) or a set has more than one member; distinct = distinct input lines.";
 
 pub const EXHAUSTIVE: bool = true;
